@@ -2,6 +2,7 @@
 import props_solver as ps
 import props_wiring as pw
 import props_profiles as pp
+import props_cache as pc
 
 CHECKS = {
     "C01": ps.check_C01,
@@ -16,6 +17,7 @@ CHECKS = {
     "C10": ps.check_C10,
     "C11": ps.check_C11,
     "C13": pw.check_C13,
+    "C15": pc.check_C15,
     "C16": pw.check_C16,
     "C17": pw.check_C17,
 }
